@@ -1,12 +1,13 @@
 import Glas.Lemmas.ItemsHist
 import Glas.Lemmas.DslMain
+import Glas.Lemmas.TreeItems
 /-!
 `runMain` *is* the item-wise iteration (for C03): a normally ending run of a well-shaped main
 (`mainBody f k`: open the root, `while !eof { statement }`, close the root) parses exactly the items
 `parseItems` finds one at a time from fresh states, and its events / errors are theirs, concatenated.
 -/
 namespace Glas.Lemmas.ItemsMain
-open Glas.Dsl Glas.Items Glas.Lemmas.ItemsLocal Glas.Lemmas.ItemsHist Glas.Lemmas.Dsl
+open Glas.Dsl Glas.Items Glas.Lemmas.ItemsLocal Glas.Lemmas.ItemsHist Glas.Lemmas.Dsl Glas.Lemmas.TreeItems
 
 /-! ### the cursor never passes the end of input -/
 
@@ -195,6 +196,12 @@ theorem evKinds_shEv (i0 : Nat) (l : List Ev) : evKinds (l.map (shEv i0)) = evKi
   funext e
   cases e <;> rfl
 
+theorem eraseId_shEv (i0 : Nat) (l : List Ev) : (l.map (shEv i0)).map eraseId = l.map eraseId := by
+  simp only [List.map_map]
+  congr 1
+  funext e
+  cases e <;> rfl
+
 /-! ### the module loop -/
 
 theorem loop_items (P : Prog) (f N : Nat) : ∀ (n : Nat), n ≤ N →
@@ -203,7 +210,8 @@ theorem loop_items (P : Prog) (f N : Nat) : ∀ (n : Nat), n ≤ N →
     ∃ items, parseSeg P f N σ.toks (n + 1) σ.pos σ.toks.length = some items ∧
       fr' = fr ∧ σ'.toks = σ.toks ∧
       evKinds σ'.events = evKinds σ.events ++ items.flatMap (fun o => evKinds o.events) ∧
-      σ'.errs = σ.errs ++ items.flatMap (fun o => o.errs) := by
+      σ'.errs = σ.errs ++ items.flatMap (fun o => o.errs) ∧
+      σ'.events.map eraseId = σ.events.map eraseId ++ items.flatMap (fun o => o.events.map eraseId) := by
   intro n
   induction n with
   | zero => intro _ σ fr σ' fr' _ h; simp [exec] at h
@@ -233,7 +241,7 @@ theorem loop_items (P : Prog) (f N : Nat) : ∀ (n : Nat), n ≤ N →
         | succ n =>
           simp only [exec, Out.norm.injEq] at h
           obtain ⟨rfl, rfl⟩ := h
-          refine ⟨[], ?_, rfl, rfl, by simp, by simp⟩
+          refine ⟨[], ?_, rfl, rfl, by simp, by simp, by simp⟩
           simp only [parseSeg, hpos, if_true]
       · have hv : b2n (b2n (σ.pos == σ.toks.length) == 0) = 1 := by simp [hpos, b2n]
         rw [hv] at h
@@ -264,9 +272,9 @@ theorem loop_items (P : Prog) (f N : Nat) : ∀ (n : Nat), n ≤ N →
             have hp1 : PosLe σ1 := by
               have := exec_posLe P n (.call f [] [] .none) { σ with la := la2 } fr1 hp
               rw [hom] at this; exact this
-            obtain ⟨items, hseg, hfr, htoks, hev, herr⟩ := ih (by omega) σ1 fr1 σ' fr' hp1 h
+            obtain ⟨items, hseg, hfr, htoks, hev, herr, hex⟩ := ih (by omega) σ1 fr1 σ' fr' hp1 h
             refine ⟨{ start := σ.pos, stop := σi1.pos, events := σi1.events, errs := σi1.errs } :: items,
-              ?_, hfr, by rw [htoks]; exact hadv.1, ?_, ?_⟩
+              ?_, hfr, by rw [htoks]; exact hadv.1, ?_, ?_, ?_⟩
             · have hlt : ¬ (σ.toks.length < σ.pos) := by have : σ.pos ≤ σ.toks.length := hp; omega
               rw [parseSeg]
               rw [if_neg hpos, if_neg hlt, hitem]
@@ -277,6 +285,8 @@ theorem loop_items (P : Prog) (f N : Nat) : ∀ (n : Nat), n ≤ N →
             · rw [hev, hs.events, evKinds_append, evKinds_shEv]
               simp [List.append_assoc]
             · rw [herr, hs.errs]
+              simp [List.append_assoc]
+            · rw [hex, hs.events, List.map_append, eraseId_shEv]
               simp [List.append_assoc]
           case panic.panic => simp at h
           case oof.oof => simp at h
@@ -355,7 +365,8 @@ theorem runMain_items (P : Prog) (f k : Nat)
     (n : Nat) (toks : List Kind) (σ : St) (hr : runMain P n toks = .ok σ) :
     ∃ items, parseItems P f n toks n = some items ∧
       evKinds σ.events = some k :: (items.flatMap (fun o => evKinds o.events) ++ [some 0]) ∧
-      σ.errs = items.flatMap (fun o => o.errs) := by
+      σ.errs = items.flatMap (fun o => o.errs) ∧
+      σ.events.map eraseId = Ev.open k 0 true :: (items.flatMap (fun o => o.events.map eraseId) ++ [Ev.close]) := by
   unfold runMain at hr
   generalize hex : exec P n (.call P.main [] [] .none) (initSt toks) { locals := [], marks := [] } = o at hr
   cases o with
@@ -389,9 +400,9 @@ theorem runMain_items (P : Prog) (f k : Nat)
               cases ol with
               | norm σ1 fr1 =>
                 simp only [] at hex
-                obtain ⟨items, hseg, hfr, htoks, hev, herr⟩ :=
+                obtain ⟨items, hseg, hfr, htoks, hev, herr, hxe⟩ :=
                   loop_items P f (n + 1 + 1 + 1) n (by omega) _ _ σ1 fr1 (Nat.zero_le _) hl
-                simp only [] at hseg htoks hev herr
+                simp only [] at hseg htoks hev herr hxe
                 cases n with
                 | zero => simp [exec] at hex
                 | succ n =>
@@ -418,7 +429,7 @@ theorem runMain_items (P : Prog) (f k : Nat)
                           · rw [if_pos hid] at hex
                             simp only [Out.norm.injEq] at hex
                             obtain ⟨rfl, _⟩ := hex
-                            refine ⟨items, ?_, ?_, ?_⟩
+                            refine ⟨items, ?_, ?_, ?_, ?_⟩
                             · unfold parseItems
                               exact Glas.Lemmas.ItemsSeg.parseSeg_mono P f _ toks _ 0 toks.length items hseg _
                                 (by omega)
@@ -427,6 +438,11 @@ theorem runMain_items (P : Prog) (f k : Nat)
                               rfl
                             · simp only []
                               rw [herr]; rfl
+                            · simp only []
+                              rw [List.map_append]
+                              have e1 : Ev.open k 0 true = eraseId (Ev.open k id true) := rfl
+                              rw [← setNth_map, hxe]
+                              rfl
                           · rw [if_neg hid] at hex; simp at hex
                         · simp at hex
                       | close => simp at hex
